@@ -222,7 +222,7 @@ func (s *JSchema) CollectUserTypes() {
 		return
 	}
 
-	for _, str := range collectUserTypes(node) {
+	for _, str := range collectUserTypes(node, s.Inner.TypesList()) {
 		s.UserTypesNamesUsed.Add(str)
 	}
 }
